@@ -35,7 +35,7 @@ NonOmit == [t \in Types |-> CASE t = "IntrospectionResponse" -> {"active"}
 
 MaxSet == IF Tier = "quick" THEN 2 ELSE 4
 Small(S) == {x \in SUBSET S : Cardinality(x) <= MaxSet}
-MergeCases == UNION {{[kind |-> "merge", t |-> t, regs |-> SetToSeq(r), customs |-> SetToSeq(c)] : r \in Small(Probes[t]), c \in Small(Probes[t])} : t \in Types}
+MergeOf(t) == {[kind |-> "merge", t |-> t, regs |-> SetToSeq(r), customs |-> SetToSeq(c)] : r \in Small(Probes[t]), c \in Small(Probes[t])}
 
 \* tolerant decoding: field kind x JSON form
 Forms == [ aud     |-> {"string", "array", "emptyarray", "null", "number", "object", "bool", "arrayNonString", "nestedArray"},
@@ -55,8 +55,9 @@ DecodeCases == UNION {{[kind |-> "decode", field |-> f, form |-> x] : x \in Form
 Plains == {"empty", "idsub", "colons", "multiblock", "utf8", "long"}
 SealCases == {[kind |-> "seal", plain |-> p, key |-> k, via |-> v] : p \in Plains, k \in {"same", "bitflip", "other"}, v \in {"crypto", "op"}}
 
-Groups == {"merge", "decode", "seal"}
-CasesOf(g) == CASE g = "merge" -> MergeCases [] g = "decode" -> DecodeCases [] OTHER -> SealCases
+\* one group per claims type (merge cases), plus the decode and seal tables
+Groups == Types \cup {"decode", "seal"}
+CasesOf(g) == IF g \in Types THEN MergeOf(g) ELSE IF g = "decode" THEN DecodeCases ELSE SealCases
 
 -----------------------------------------------------------------------------
 (* merge: o.src / o.back : name |-> "reg" | "custom" | "zero" | "absent" | "other" (first marshal / after a round trip) ;
